@@ -1,6 +1,6 @@
 (* Props/C02.v — C02: end-of-stream follows all data; half-close; tear-down. *)
 From Coq Require Import List NArith Ascii Bool Lia.
-From SV Require Import Model.StreamQuiet Proofs.Stream_quiet Lib.Bytes Model.Wire Model.Chan Model.Stream
+From SV Require Import Model.StreamQuiet Proofs.Stream_quiet Model.StreamDrain Proofs.Stream_drain Lib.Bytes Model.Wire Model.Chan Model.Stream
   Proofs.Stream_basic Proofs.Stream_wrap Proofs.Stream_cb Proofs.Stream_reg Proofs.Stream_view
   Proofs.Stream_flow Proofs.Stream_props Gen.Consts.
 Import ListNotations.
@@ -121,7 +121,7 @@ Print Assumptions c02_quiet_handler_shape.
 (* (c) no half-open flow waits for a peer that is gone or for a peer that waits for it: every active
    handler waits for the outside world (or has the F20 shape), or it has sent its EOF and its peer
    exists, is active, and itself waits for the outside world.  PARTIAL: the F20 shape is inside
-   waits_outside; that the drain reaches a quiescent state is Stream_quiet.eager_drain_full (unproved) *)
+   waits_outside; that the drain reaches a quiescent state is (e) below *)
 Theorem c02_no_stuck_state_partial :
   forall maxc lbs evs w sd f p,
   run (world0 maxc lbs) evs = Ok w -> w_stale w = false -> quiescentb w = true ->
@@ -144,4 +144,35 @@ Theorem c02_no_stuck_state_refuted :
        pre_ws sd fid p (e_mux (get_end w sd)) <> []).
 Proof. exact q_c02_no_stuck_state_refuted. Qed.
 Print Assumptions c02_no_stuck_state_refuted.
+
+(* (e) ... and such a state is REACHED (Proofs/Stream_drain.v): from every reachable state without
+   stale delivery the explicit eager schedule drain_of w ends — without raising — in a stale or
+   quiescent state, where (a) and (c) hold: nothing undelivered, no half-open flow waiting for a peer
+   that is gone or that waits for it. *)
+Theorem c02_eventually_not_stuck :
+  forall maxc lbs evs w, run (world0 maxc lbs) evs = Ok w -> w_stale w = false ->
+  exists drain w', Forall eager_event drain /\ run w drain = Ok w' /\
+    (w_stale w' = true \/
+     (quiescent_eagerb w' = true /\
+      (forall rs f, let v := view_of w' rs f in
+         vfz v = false -> vY v = [] /\ vP v = [] /\ flat (vX v) = [] /\ vD v = vA v) /\
+      (forall sd f p, e_prox (get_end w' sd) f = Some p -> active p = true ->
+         waits_outside sd f p (e_mux (get_end w' sd)) \/
+         (m_sw (p_m p) = true /\ m_sr (p_m p) = false /\
+          exists q, e_prox (get_end w' (other sd)) f = Some q /\ active q = true /\
+                    m_sr (p_m q) = true /\ m_sw (p_m q) = false /\
+                    waits_outside (other sd) f q (e_mux (get_end w' (other sd))))))).
+Proof. exact d_c02_eventually_not_stuck. Qed.
+Print Assumptions c02_eventually_not_stuck.
+
+Theorem c02_drain_schedule :
+  forall maxc lbs evs w, run (world0 maxc lbs) evs = Ok w -> w_stale w = false ->
+  Forall eager_event (drain_of w) /\
+  match run w (drain_of w) with
+  | Ok w' => w_stale w' = true \/ quiescent_eagerb w' = true
+  | Crash _ => False
+  end.
+Proof. exact eager_drain_sched. Qed.
+Print Assumptions c02_drain_schedule.
+
 
